@@ -177,11 +177,21 @@ package libmem
 //@ pure txn(a *Allocator) bool = awf(a) && rwf(a) && a.journal != nil && jassigned(a) && jupd(a) && jchg(a) && jmono(a) && jstrict(a)
 //@ pure nocustom(a *Allocator) bool = a.custom.ExpandZone == nil && a.custom.HandleOvercommit == nil
 
-// SortRequests (map iteration, filtering closure, slices.SortFunc) is assumed: it returns requests stored in the map.
-//@ assume-contract SortRequests
+// SortRequests: the requests of the map that pass the filter, each once (the order produced by the sorters is not
+// interpreted: slices.SortFunc is a permutation). Filters and sorters are pure functions of the requests.
+//@ functype RequestFilter pure
+//@ functype RequestSorter pure
+//@ func SortRequests ints=bv64 tags=C06
+//@   requires forall id string :: id in requests ==> requests[id] != nil && requests[id].id == id
 //@   modifies nothing
-//@   ensures forall j int :: 0 <= j && j < len(result) ==> result[j] != nil && result[j].id in requests && requests[result[j].id] == result[j]
-//@   ensures forall i int, j int :: 0 <= i && i < j && j < len(result) ==> result[i] != result[j]
+//@   ensures[C06] forall j int :: 0 <= j && j < len(result) ==> result[j] != nil && result[j].id in requests && requests[result[j].id] == result[j]
+//@   ensures[C06] forall i int, j int :: 0 <= i && i < j && j < len(result) ==> result[i] != result[j]
+//@   ensures[C07] forall j int :: 0 <= j && j < len(result) ==> f == nil || f(result[j])
+//@ loop 0 in SortRequests at "range requests"
+//@   modifies nothing
+//@   invariant alive(slice) && newobj(slice)
+//@   invariant forall j int :: 0 <= j && j < len(slice) ==> slice[j] != nil && slice[j].id in requests && requests[slice[j].id] == slice[j] && seen(slice[j].id) && (f == nil || f(slice[j]))
+//@   invariant forall i int, j int :: 0 <= i && i < j && j < len(slice) ==> slice[i] != slice[j]
 
 // Zone expansion only reads the allocator (default expansion; custom callbacks are excluded by nocustom).
 //@ func (*Allocator).expand ints=bv64 tags=C06 inline=12
@@ -198,8 +208,18 @@ package libmem
 //@   invariant newobj(zones) && newobj(spill) && len(zones) >= 0
 //@   invariant[C07,C04] len(zones) > 0 || (forall z NodeMask :: seen(z) && (nodes == 0 || (z & nodes) != 0) ==> a.zoneFree(z) >= 0)
 
+// The priority filter used by zoneShrinkUsage: a request passes iff its priority is at most the limit.
+//@ func RequestsWithMaxPriority$1 defines ints=bv64
+//@   requires r != nil
+//@   ensures[C07] result == (r.priority <= limit)
+
+// C07 "memory reservations are never moved": only requests whose priority is at most the given limit are moved
+// (`lowprio`: every assignment that differs from the one at entry belongs to such a request).
+//@ pure movedBelow(a *Allocator, limit Priority) bool = forall id string :: old(id in a.users) && a.users[id] != old(a.users[id]) ==> id in a.requests && a.requests[id].priority <= limit
+
 //@ func (*Allocator).zoneShrinkUsage ints=bv64
 //@   requires txn(a) && nocustom(a)
+//@   ensures[C07] movedBelow(a, limit)
 //@   ensures[C06] txn(a) && a.journal == old(a.journal) && a.requests == old(a.requests) && dom(a.requests) == old(dom(a.requests)) && vals(a.requests) == old(vals(a.requests))
 //@   ensures[C06] forall id string :: origd(a, id) == old(origd(a, id)) && origv(a, id) == old(origv(a, id))
 //@   ensures[C07] forall id string :: old(id in a.users) ==> id in a.users && (a.users[id] & old(a.users[id])) == old(a.users[id])
@@ -213,6 +233,7 @@ package libmem
 //@   invariant forall j int :: 0 <= j && j < len($t36) ==> $t36[j] != nil && $t36[j].id in a.requests && a.requests[$t36[j].id] == $t36[j]
 //@   invariant forall i int, j int :: 0 <= i && i < j && j < len($t36) ==> $t36[i] != $t36[j]
 //@   invariant forall j int :: rangeindex < j && j < len($t36) ==> $t36[j].id in a.users && a.users[$t36[j].id] == zone
+//@   invariant[C07] movedBelow(a, limit) && (forall j int :: 0 <= j && j < len($t36) ==> $t36[j].priority <= limit)
 //@ assert[C06] in (*Allocator).zoneShrinkUsage at "a.zoneMove(zone|nodes, req)": req != nil && req.id in a.requests && a.requests[req.id] == req
 //@ assert[C07] in (*Allocator).zoneShrinkUsage at "a.zoneMove(zone|nodes, req)": forall j int :: rangeindex + 1 < j && j < len($t36) ==> $t36[j].id != req.id
 //@ assert[C07] in (*Allocator).zoneShrinkUsage at "a.zoneMove(zone|nodes, req)": req.id in a.users && a.users[req.id] == zone
@@ -222,20 +243,20 @@ package libmem
 //@    dom(a.requests) == old(dom(a.requests)) && vals(a.requests) == old(vals(a.requests)) &&
 //@    (forall id string :: origd(a, id) == old(origd(a, id)) && origv(a, id) == old(origv(a, id))) &&
 //@    (forall id string :: old(id in a.users) ==> id in a.users && (a.users[id] & old(a.users[id])) == old(a.users[id])) &&
-//@    (forall id string :: jnew(a, id) ==> old(jnew(a, id)))
+//@    (forall id string :: jnew(a, id) ==> old(jnew(a, id))) && movedBelow(a, Preserved)
 
 //@ func (*Allocator).defaultHandleOvercommit ints=bv64
 //@   requires txn(a) && nocustom(a) && a.masks != nil
 //@   ensures[C06,C07] txpres(a)
 //@   ensures[C07,C04] result == nil ==> fits(a, nodes)
 //@ loop 0 in (*Allocator).defaultHandleOvercommit at "for {"
-//@   invariant txpres(a)
+//@   invariant txpres(a) && alive(allowedPrios) && (forall i int :: 0 <= i && i < len(allowedPrios) ==> allowedPrios[i] <= Preserved)
 //@ loop 1 in (*Allocator).defaultHandleOvercommit at "range allowedPrios"
-//@   invariant txpres(a)
+//@   invariant txpres(a) && alive(allowedPrios) && (forall i int :: 0 <= i && i < len(allowedPrios) ==> allowedPrios[i] <= Preserved)
 //@ loop 2 in (*Allocator).defaultHandleOvercommit at "range expandTypes"
-//@   invariant txpres(a)
+//@   invariant txpres(a) && prio <= Preserved && alive(allowedPrios) && (forall i int :: 0 <= i && i < len(allowedPrios) ==> allowedPrios[i] <= Preserved)
 //@ loop 3 in (*Allocator).defaultHandleOvercommit at "range oc"
-//@   invariant txpres(a)
+//@   invariant txpres(a) && prio <= Preserved && alive(allowedPrios) && (forall i int :: 0 <= i && i < len(allowedPrios) ==> allowedPrios[i] <= Preserved)
 //@ loop 4 in (*Allocator).defaultHandleOvercommit at "range spill"
 //@   invariant txpres(a)
 
@@ -275,6 +296,8 @@ package libmem
 
 //@ func (*Allocator).allocate ints=bv64
 //@   requires idle(a) && req != nil
+//@   # C07: memory reservations (priority Reservation = Preserved+1) are never moved by another request's allocation
+//@   ensures[C07] retErr == nil ==> forall id string :: id != req.id && old(id in a.users) && a.users[id] != old(a.users[id]) ==> id in a.requests && a.requests[id].priority <= Preserved
 //@   ensures[C06] awf(a) && rwf(a) && nocustom(a) && a.masks == old(a.masks) && a.version == old(a.version)
 //@   ensures[C06] retErr != nil ==> a.journal == nil && dom(a.users) == old(dom(a.users)) && vals(a.users) == old(vals(a.users)) &&
 //@                                 dom(a.requests) == old(dom(a.requests)) && vals(a.requests) == old(vals(a.requests))
@@ -323,6 +346,7 @@ package libmem
 
 //@ func (*Allocator).Allocate ints=bv64
 //@   requires idle(a) && req != nil
+//@   ensures[C07] result2 == nil ==> forall id string :: id != req.id && old(id in a.users) && a.users[id] != old(a.users[id]) ==> id in a.requests && a.requests[id].priority <= Preserved
 //@   ensures[C06] awf(a) && rwf(a) && a.journal == nil && assigned(a)
 //@   ensures[C06] result2 != nil ==> dom(a.users) == old(dom(a.users)) && vals(a.users) == old(vals(a.users)) && dom(a.requests) == old(dom(a.requests)) && vals(a.requests) == old(vals(a.requests))
 //@   ensures[C06] result2 == nil ==> a.version != old(a.version)
@@ -345,6 +369,7 @@ package libmem
 
 //@ func (*Allocator).realloc ints=bv64
 //@   requires idle(a) && req != nil && req.id in a.requests && a.requests[req.id] == req && req.id in a.users
+//@   ensures[C07] retErr == nil ==> forall id string :: id != req.id && old(id in a.users) && a.users[id] != old(a.users[id]) ==> id in a.requests && a.requests[id].priority <= Preserved
 //@   ensures[C06] awf(a) && rwf(a) && a.journal == nil && nocustom(a) && a.masks == old(a.masks)
 //@   ensures[C06] retErr != nil ==> dom(a.users) == old(dom(a.users)) && vals(a.users) == old(vals(a.users)) && a.version == old(a.version)
 //@   ensures[C06] dom(a.requests) == old(dom(a.requests)) && vals(a.requests) == old(vals(a.requests))
@@ -355,6 +380,7 @@ package libmem
 
 //@ func (*Allocator).Realloc ints=bv64
 //@   requires idle(a)
+//@   ensures[C07] result2 == nil ==> forall k string :: k != id && old(k in a.users) && a.users[k] != old(a.users[k]) ==> k in a.requests && a.requests[k].priority <= Preserved
 //@   ensures[C06] awf(a) && rwf(a) && a.journal == nil && assigned(a)
 //@   ensures[C06] result2 != nil ==> dom(a.users) == old(dom(a.users)) && vals(a.users) == old(vals(a.users))
 //@   ensures[C06] dom(a.requests) == old(dom(a.requests)) && vals(a.requests) == old(vals(a.requests))
